@@ -1,6 +1,7 @@
 """Pins for the bounded random functions of snowfakery/template_funcs.py (C11).
 
-What is extracted on every run (and bridged to the model `SnowModel.Bounded` by
+What is extracted on every run (first of all the decorator list of every modelled function: a caching
+decorator such as `memorable` on `choice` would freeze the first row's weights) (and bridged to the model `SnowModel.Bounded` by
 `Props/C11Bridge.lean`):
   * `random_number`: callee and the three argument expressions of `random.randrange(min, max + 1, step)`,
     the default of `step`;
@@ -56,6 +57,18 @@ def _calls(node, attr):
 def _bounded(tree):
     out = ""
     funcs = find_class(tree, "Functions")
+
+    # ---------------------------------------------------------------- decorators
+    # A caching decorator (`memorable`, `lru_cache`, …) on a function whose result must be computed afresh for
+    # every row changes which draws / weights a row sees; the decorator lists are therefore pinned.
+    decos = []
+    for name in ("random_number", "random_choice", "choice", "if_", "date", "datetime", "date_between", "datetime_between"):
+        fn = find_func(funcs, name)
+        decos.append(name + ": " + ", ".join(ast.unparse(d) for d in fn.decorator_list))
+    for name in ("parse_weight_str", "weighted_choice", "parse_date", "parse_datetimespec", "render_boolean"):
+        fn = find_func(tree, name)
+        decos.append(name + ": " + ", ".join(ast.unparse(d) for d in fn.decorator_list))
+    out += _list_def("functionDecorators", decos, "decorator list of every function the C11 model covers")
 
     # ---------------------------------------------------------------- random_number
     f = find_func(funcs, "random_number")
